@@ -306,6 +306,9 @@ func (f *g2lFn) call(c *ast.CallExpr) string {
 	if s, ok := f.callExt(c); ok { // go2lean_string.go: strings, make, Sprintf, primitives with pointer receivers
 		return s
 	}
+	if s, ok := f.callBytes(c); ok { // go2lean_buffer.go: append(x, y...), buf.Bytes()
+		return s
+	}
 	if c.Ellipsis.IsValid() && !f.g.refsOn() && !f.ellipsisOK(c) { // go2lean_refs.go: variadic functions; go2lean_env.go
 		f.fail("variadic call `%s`", f.src(c))
 	}
@@ -486,6 +489,9 @@ func (f *g2lFn) composite(x *ast.CompositeLit) string {
 		}
 		return s
 	case kList:
+		if s, ok := f.keyedArray(x, t); ok { // go2lean_buffer.go: [N]T{k: v, …}
+			return s
+		}
 		var parts []string
 		for _, el := range x.Elts {
 			if _, ok := el.(*ast.KeyValueExpr); ok {
@@ -503,6 +509,9 @@ func (f *g2lFn) composite(x *ast.CompositeLit) string {
 }
 
 func (f *g2lFn) index(x *ast.IndexExpr) string {
+	if s, ok := f.replaced(x); ok { // go2lean_buffer.go: the comparator of sort.SliceStable
+		return s
+	}
 	t := f.typeOf(x.X)
 	if s, ok := f.indexExt(x, t); ok { // go2lean_string.go: s[i] on strings, m[k] on map literals
 		return s
@@ -534,6 +543,9 @@ func (f *g2lFn) unary(x *ast.UnaryExpr) string {
 	case token.NOT:
 		return f.boolExpr(x)
 	case token.AND:
+		if s, ok := f.addrLit(x); ok { // go2lean_buffer.go: &pkg.T{…} named by a primitive
+			return s
+		}
 		return f.addrOf(x)
 	}
 	f.fail("operator %s in `%s`", x.Op, f.src(x))
@@ -574,6 +586,9 @@ func (f *g2lFn) arith(op token.Token, a, b string, t types.Type, r ast.Expr, who
 				return a + " * 2 ^ " + n
 			}
 			return a + " / 2 ^ " + n
+		}
+		if s, ok := f.intBitOp(op, a, b); ok { // go2lean_buffer.go: | and & on signed integers
+			return s
 		}
 	case kUint:
 		switch op {
@@ -687,6 +702,9 @@ func (f *g2lFn) relation(x *ast.BinaryExpr) string {
 		f.fail("comparison of %s in `%s`", f.g.typeKey(lt), f.src(x))
 	}
 	if g2lKindOf(lt) == kString && x.Op != token.EQL && x.Op != token.NEQ {
+		if s, ok := f.strOrder(x); ok { // go2lean_buffer.go: bytewise order
+			return s
+		}
 		f.fail("string ordering in `%s` (bytewise in Go)", f.src(x))
 	}
 	return g2lPar(f.expr(x.X)) + " " + g2lRel(x.Op) + " " + g2lPar(f.expr(x.Y))
